@@ -202,7 +202,8 @@ def check_masked_alleles_never_called(tier, seed):
                         z = 0 if (masked or zero_at in (None, "all")) else zero_at
                         r = np.full((6, 3, 2), 0.02)
                         for k in range(6):
-                            h = H[z] if k < 4 else H[(z + 1) % 4]
+                            # S0: every read supports the unusable allele; S1: four of six
+                            h = H[z] if (k < 4 or s == "S0") else H[(z + 1) % 4]
                             for j in range(3):
                                 r[k, j, h[j]] = 0.98
                         reads[s] = r
